@@ -136,6 +136,68 @@ def routeOrigin (localAsn : Nat) : Option (List Seg) → Option Nat
           | some 1 => none
           | _ => some localAsn
 
+/-! ### the same derivation on the bytes of the attribute
+
+`validate` really works on the binary AS_PATH: `Attribute::as_path_origin` walks the segments
+with a cursor (`read_u8().unwrap()`, `read_u32().unwrap()`: a truncated attribute panics) and
+`as_path_final_segment_type` walks them with an index.  The harness encodes the segments of a
+case as the wire does (type octet, count octet, four octets per AS). -/
+
+def be32 (n : Nat) : List Nat := [n / 16777216 % 256, n / 65536 % 256, n / 256 % 256, n % 256]
+
+def encSeg (s : Seg) : List Nat := [s.1 % 256, s.2.length % 256] ++ s.2.flatMap be32
+
+def encPath (segs : List Seg) : List Nat := segs.flatMap encSeg
+
+/-- the four octets at the front of `b` as a number (`read_u32::<NetworkEndian>`) -/
+def rd32 : List Nat → Option Nat
+  | a :: b :: c :: d :: _ => some (a * 16777216 + b * 65536 + c * 256 + d)
+  | _ => none
+
+/-- the `for i in 0..num` loop: reads `num` AS numbers, keeps the last one; `none` = a read failed -/
+def readAsns : Nat → List Nat → Nat → Option (Nat × List Nat)
+  | 0, buf, asn => some (asn, buf)
+  | k + 1, buf, _ =>
+      match rd32 buf with
+      | some n => readAsns k (buf.drop 4) n
+      | none => none
+
+/-- the `while c.position() < len` loop of `as_path_origin`; state = (t, num, asn) -/
+def originWalk : Nat → List Nat → Nat × Nat × Nat → Out (Nat × Nat × Nat)
+  | _, [], st => .ok st
+  | 0, _ :: _, st => .ok st                       -- (unreachable with fuel = buffer length)
+  | _ + 1, [_], _ => .panic                       -- `read_u8().unwrap()` of the count
+  | fuel + 1, t :: num :: rest, st =>
+      match readAsns num rest st.2.2 with
+      | some (asn, rest') => originWalk fuel rest' (t, num, asn)
+      | none => .panic                            -- `read_u32().unwrap()`
+
+def asPathOriginBytes (buf : List Nat) : Out (Option Nat) :=
+  if buf.length < 2 then .ok none
+  else
+    match originWalk buf.length buf (0, 0, 0) with
+    | .panic => .panic
+    | .ok (t, num, asn) => .ok (if t = 2 ∧ num > 0 then some asn else none)
+
+/-- `as_path_final_segment_type`: `while pos + 2 <= buf.len()` -/
+def finalTypeWalk : Nat → List Nat → Option Nat → Option Nat
+  | fuel + 1, t :: num :: rest, _ => finalTypeWalk fuel (rest.drop (num * 4)) (some t)
+  | _, _, acc => acc
+
+def finalSegTypeBytes (buf : List Nat) : Option Nat := finalTypeWalk buf.length buf none
+
+/-- the `asn` computed at the top of `validate`, on the encoded attribute -/
+def routeOriginBytes (localAsn : Nat) : Option (List Seg) → Out (Option Nat)
+  | none => .ok (some localAsn)
+  | some segs =>
+      match asPathOriginBytes (encPath segs) with
+      | .panic => .panic
+      | .ok (some a) => .ok (some a)
+      | .ok none =>
+          match finalSegTypeBytes (encPath segs) with
+          | some 1 => .ok none
+          | _ => .ok (some localAsn)
+
 /-! ### `validate` -/
 
 inductive VState where
@@ -184,13 +246,24 @@ def finish (acc : Acc) : Validation :=
   else if acc.ul ≠ [] then ⟨.invalid, .length, acc.m, acc.ua, acc.ul⟩
   else ⟨.notFound, .none, acc.m, acc.ua, acc.ul⟩
 
-def Table.validate (t : Table) (localAsn : Nat) (net : Net) (path : Option (List Seg)) :
-    Option Validation :=
+/-- `validate` once the origin `asn` is known -/
+def Table.validateO (t : Table) (asn : Option Nat) (net : Net) : Option Validation :=
   let m := t.trie net.fam
-  let asn := routeOrigin localAsn path
   let maxBits := min (net.addr.length * 8) 255
   let acc := (List.range (min net.len maxBits + 1)).foldl (validateStep m net asn) {}
   some (finish acc)
+
+/-- with the origin derived from the segments -/
+def Table.validate (t : Table) (localAsn : Nat) (net : Net) (path : Option (List Seg)) :
+    Option Validation :=
+  t.validateO (routeOrigin localAsn path) net
+
+/-- as the code does it: the origin derived from the bytes of the attribute (may panic) -/
+def Table.validateB (t : Table) (localAsn : Nat) (net : Net) (path : Option (List Seg)) :
+    Out (Option Validation) :=
+  match routeOriginBytes localAsn path with
+  | .panic => .panic
+  | .ok o => .ok (t.validateO o net)
 
 /-! ### mutation -/
 
@@ -266,9 +339,10 @@ def step (localAsn globalAsn : Nat) (t : Table) : Op → Out (Table × Option Ob
   | .drop s => .ok (t.dropSource s, none)
   | .reset s v => .ok (t.reset s v, none)
   | .val net path =>
-      match t.validate localAsn net path with
-      | none => .ok (t, some .unvalidated)
-      | some r => .ok (t, some (.v r))
+      match t.validateB localAsn net path with
+      | .panic => .panic
+      | .ok none => .ok (t, some .unvalidated)
+      | .ok (some r) => .ok (t, some (.v r))
   | .iter f =>
       match t.iter f with
       | .ok l => .ok (t, some (.it l))
@@ -277,9 +351,10 @@ def step (localAsn globalAsn : Nat) (t : Table) : Op → Out (Table × Option Ob
       -- `collect_paths` phase 2 and `Condition::Rpki` both call `validate`; `rpki_validation_to_api`
       -- maps state and reason one to one; the statement rejects iff the state is the configured one
       -- `validate` takes the speaker's own AS for a locally originated route, the session's otherwise
-      match t.validate (if loc then globalAsn else localAsn) net path with
-      | none => .ok (t, some (.api none false))
-      | some r => .ok (t, some (.api (some (r.state, r.reason)) (decide (r.state = st))))
+      match t.validateB (if loc then globalAsn else localAsn) net path with
+      | .panic => .panic
+      | .ok none => .ok (t, some (.api none false))
+      | .ok (some r) => .ok (t, some (.api (some (r.state, r.reason)) (decide (r.state = st))))
 
 def runFrom (localAsn globalAsn : Nat) : Table → List Op → Out (Table × List Ob)
   | t, [] => .ok (t, [])
